@@ -416,6 +416,10 @@ func (an *Analysis) createType(typ types.Type, ctx context) Type {
 			str.Comments = fetchStructComments(ctx.rootPackage, name)
 			return str
 		} else {
+			if _, isPointer := typ.Underlying().(*types.Pointer); isPointer {
+				// a named pointer is not an AnonymousType, and may be self referencing (type P *P)
+				panic("named pointer types are not supported: " + typ.String())
+			}
 			// otherwise, analyze the underlying type
 			under := an.handleType(typ.Underlying(), ctx).(AnonymousType)
 			return &Named{name: name, Underlying: under}
